@@ -241,6 +241,27 @@ let () =
     | ["m"] -> "ret=-1"
     | _ -> failwith "conf")
 
+(* ---------------- C06 ---------------- *)
+let () =
+  reg "meta" (fun a -> match a with
+    | [hdr] ->
+      let m = get_metadata (zlist_of_string hdr) in
+      let v = m.m_view in
+      (* re-encode the decoded block with the model's writer: must give back the implementation's bytes *)
+      let bytes = zlist_of_string hdr in
+      let flag = List.nth bytes 4 in
+      let md = int_of_z v.v_ebMode in
+      let pb : pblock = { pb_optQuantMode = v.v_optQuantMode; dataEnd = v.v_dataEnd; sysEnd = z_of_int ((int_of_z flag / 16) mod 2); pb_szMode = v.v_szMode;
+                 pb_gzipMode = v.v_gzipMode; pb_sampleDistance = v.v_sampleDistance; predThr = v.v_predThr; ebMode = v.v_ebMode; dataType = v.v_dataType;
+                 absF = v.v_b6; relF = (if md = 13 || md = 14 then v.v_b6 else v.v_b10); psnrF = v.v_b6; pwrF = v.v_b10; solID = v.v_sol;
+                 maxQ = v.v_intervals; quantI = v.v_intervals; fminB = v.v_min; fmaxB = v.v_max; dminB = v.v_min; dmaxB = v.v_max } in
+      let enc = encode_params pb in
+      let plen = if int_of_z v.v_dataType = 1 then 36 else 28 in
+      let reenc = list_take plen (force enc) = list_take plen (list_drop 4 bytes) in
+      Printf.sprintf "const=%s lossless=%s st=%s len=%s ty=%s mode=%s b6=%s b10=%s szmode=%s reenc=%d written=%d" (hz m.m_const) (hz m.m_lossless) (hz m.m_sizeType)
+        (hz m.m_length) (hz v.v_dataType) (hz v.v_ebMode) (hz v.v_b6) (hz v.v_b10) (hz v.v_szMode) (if reenc then 1 else 0) (if all_written enc then 1 else 0)
+    | _ -> failwith "meta")
+
 let () =
   (try
     while true do
